@@ -478,3 +478,41 @@ def skolem(n, name='p'):
 
 class PredInvariant(Invariant):
     pass
+
+
+class SpecFn:
+    """concrete twin: evaluates the textbook definition by recursion (memoised)"""
+    def __init__(self, name, nparams, cases):
+        self.name, self.nparams, self.cases = name, nparams, cases
+        self.memo = {}
+
+    def at(self, n, *params):
+        n = int(n)
+        key = (n,) + tuple(float(p) if not isinstance(p, complex) else p for p in params)
+        if key in self.memo:
+            return self.memo[key]
+        # iterative fill to avoid deep recursion
+        todo = [n]
+        while todo:
+            k = todo[-1]
+            kk = (k,) + key[1:]
+            if kk in self.memo:
+                todo.pop()
+                continue
+            need = [j for j in (k - 1, k - 2) if j >= 0 and ((j,) + key[1:]) not in self.memo and self._needs(k)]
+            if need:
+                todo.extend(need)
+                continue
+            for guard, value in self.cases:
+                if guard(k):
+                    self.memo[kk] = value(self, k, *params)
+                    break
+            else:
+                raise ValueError('spec %s undefined at %r' % (self.name, k))
+            todo.pop()
+        return self.memo[key]
+
+    def _needs(self, k):
+        return k >= 2
+
+    raw = at
